@@ -290,6 +290,11 @@ pub fn mle(ctx: &mut Ctx) {
         (1, 1, 0, "disjoint singletons"),
         (0, 99_000, 1000, "nested 1:100"),
         (30, 3000, 300, "unequal overlap"),
+        // sketches of empty sets (all registers 0: a fresh or reinitialised sketcher) and of sets too small to raise many registers
+        (0, 0, 0, "both empty"),
+        (0, 1000, 0, "one empty, one of 1000"),
+        (0, 1, 0, "one empty, one singleton"),
+        (2, 3, 0, "tiny disjoint"),
     ];
     if !ctx.quick() {
         shapes.push((0, 999_000, 1000, "nested 1:1000"));
